@@ -35,10 +35,10 @@ type Local struct {
 	VerifyTx    bool   `json:"verifytx"`
 	SaveBatch   bool   `json:"savebatch"`
 	SaveInvocs  bool   `json:"saveinv"`
-	Preload     int    `json:"preload"`   // 0 none, 1 the block's own transactions, 2 half of them
-	FlushMode   int    `json:"flush"`     // 0 never (until the end), 1 every block, 2 tape-chosen boundaries, 3 Run() timer on the fake clock
-	FlushGC     bool   `json:"flushgc"`   // run the GC step after harness-driven flushes
-	RestartPlan []int  `json:"restarts"`  // heights after which the node is stopped and reopened
+	Preload     int    `json:"preload"`  // 0 none, 1 the block's own transactions, 2 half of them
+	FlushMode   int    `json:"flush"`    // 0 never (until the end), 1 every block, 2 tape-chosen boundaries, 3 Run() timer on the fake clock
+	FlushGC     bool   `json:"flushgc"`  // run the GC step after harness-driven flushes
+	RestartPlan []int  `json:"restarts"` // heights after which the node is stopped and reopened
 }
 
 // tbShim lets neotest/require helpers abort only the current run.
@@ -79,7 +79,7 @@ type logCore struct {
 	counts map[string]int
 }
 
-func (c *logCore) Enabled(l zapcore.Level) bool { return l >= zapcore.WarnLevel }
+func (c *logCore) Enabled(l zapcore.Level) bool      { return l >= zapcore.WarnLevel }
 func (c *logCore) With([]zapcore.Field) zapcore.Core { return c }
 func (c *logCore) Check(e zapcore.Entry, ce *zapcore.CheckedEntry) *zapcore.CheckedEntry {
 	if c.Enabled(e.Level) {
